@@ -12,7 +12,7 @@ def _op_names(site, rng, k=2):
     return [str(x) for x in rng.choice(names, size=min(k, len(names)), replace=False)]
 
 
-MAX_DIM = 1100
+MAX_DIM = 600
 
 
 def run(rec):
@@ -23,7 +23,7 @@ def run(rec):
     rng = np.random.default_rng(rec.seed + 8)
     quick = rec.tier == 'quick'
     Ls = [3, 4] if quick else [2, 3, 4, 5, 6]
-    reps = 2 if quick else 10
+    reps = 2 if quick else 6
     rec.rule = ('site family x L x random state(s) of one charge sector: expectation_value (1- and 2-site operators, site subsets), '
                 'expectation_value_term / terms_sum with fermionic operators in any order (i<j, i=j, i>j), correlation_function with '
                 'and without operator strings, overlap, MPSEnvironment expectation values with bra != ket, get_rho_segment, '
